@@ -59,7 +59,8 @@ func init() {
 				{Name: "plain-p16", Mode: "stress", Shards: 1, Timeout: 10 * time.Minute, Env: append([]string{"GOMAXPROCS=16"}, poison...)},
 			}
 		},
-		Run: run,
+		Run:    run,
+		Replay: replay,
 	})
 }
 
@@ -413,3 +414,10 @@ func classGroup(class string) string {
 var _ net.Conn
 
 func jsonUnmarshal(s string, v any) error { return json.Unmarshal([]byte(s), v) }
+
+
+// replay cannot reproduce one interleaving; it repeats a short stress run of the same configuration.
+func replay(c *fw.Ctx, raw json.RawMessage) {
+	c.Mode = "stress"
+	run(c)
+}
